@@ -434,7 +434,7 @@ class Oracle:
             if k == "off":
                 self.brk = None
             elif el < T_BRK:
-                want = min(127, (T_BRK - el) // 250)
+                want = max(1, min(127, (T_BRK - el) // 250))     # DeltaTimeQuarterSecond ::= INTEGER (1..255)
                 if st != "L" or "b" not in opo or opo["b"][0] != self.brk["r"] or not self._q(opo["b"][1], want):
                     bad.append(("breakup-warning-cut-short", f"{el} ms after break-up: state {st}, container {opo}"))
             elif k == "upd":
@@ -443,6 +443,9 @@ class Oracle:
                 self.brk = None
         elif "b" in opo:
             bad.append(("breakup-info-without-breakup", opo))
+        for tag in ("j", "b"):
+            if tag in opo and not (1 <= opo[tag][1] <= 255):
+                bad.append(("notification-time-not-encodable", opo))
         # ---- join notification
         if k == "off" or st == "I":
             self.join, self.leave = None, None
@@ -471,7 +474,7 @@ class Oracle:
             if j is not None and j["phase"] == "notify":
                 el = t - j["t0"]
                 if el < T_JOIN:
-                    want = min(127, (T_JOIN - el) // 250)
+                    want = max(1, min(127, (T_JOIN - el) // 250))
                     if "j" not in opo or opo["j"][0] != j["cid"] or not self._q(opo["j"][1], want):
                         bad.append(("join-notification-cut-short", f"{el} ms after initiate_join({j['cid']}): container {opo}"))
             elif "j" in opo:
@@ -506,6 +509,8 @@ REGRESSION_OF = {   # violation kind -> fixed finding it would be a regression o
     "join-not-completed": "C18-F1", "cluster-vam-not-encodable": "C18-F1", "leader-lost-not-detected": "C18-F2",
     "leave-notification-cut-short": "C18-F3", "cluster-created-during-notification": "C18-F4",
     "join-info-after-notification": "C18-F4", "leave-info-without-leave": "C18-F4",
+    "join-notification-cut-short": "C18-F5", "breakup-warning-cut-short": "C18-F5", "vam-not-encodable": "C18-F5",
+    "notification-time-not-encodable": "C18-F5",
 }
 
 
@@ -566,8 +571,32 @@ def encode_witness():
 
 
 # ------------------------------------------------------------------------------------------------ sequences
-def run_seq(ctx, var, case, compare=True, record=None):
-    """one event sequence on the real manager (+ oracle) and, if `compare`, on the model.  Returns oracle findings."""
+class Batch:
+    """sequence cases whose model runs are batched into ONE driver call (start-up dominates)"""
+
+    def __init__(self):
+        self.lines, self.items = [], []
+
+    def add(self, case, lines, robs):
+        self.items.append((case, len(self.lines), len(lines), robs))
+        self.lines += lines
+
+    def flush(self, ctx, var):
+        if not self.items or not ctx.model_ok:
+            return
+        out = ctx.model("Cluster", self.lines)
+        for case, start, n, robs in self.items:
+            for i, (a, mline) in enumerate(zip(robs, out[start + 1:start + n])):
+                b = mline.split(" # ")[0]
+                if a != b:
+                    ctx.mismatch("cluster.seq", {"clock": case.get("clock", "fraction"), "base": case.get("base", 1_000_000),
+                                                 "ops": case["ops"][:i + 1]}, a, b)
+                    break
+        self.lines, self.items = [], []
+
+
+def run_seq(ctx, var, case, batch=None, record=None):
+    """one event sequence on the real manager (+ oracle); model comparison deferred to `batch`.  Returns oracle findings."""
     clock, base = case.get("clock", "fraction"), case.get("base", 1_000_000)
     ops = [(d, _tup(op)) for d, op in case["ops"]]
     real, orc = Real(base, clock), Oracle(clock == "float")
@@ -581,13 +610,8 @@ def run_seq(ctx, var, case, compare=True, record=None):
         if record is not None:
             record.append((real.ms, op, o))
     ctx.evals(len(ops))
-    if compare and ctx.model_ok:
-        out = ctx.model("Cluster", lines)[1:]
-        for i, (a, mline) in enumerate(zip(robs, out)):
-            b = mline.split(" # ")[0]
-            if a != b:
-                ctx.mismatch("cluster.seq", {"clock": clock, "base": base, "ops": case["ops"][:i + 1]}, a, b)
-                break
+    if batch is not None:
+        batch.add(case, lines, robs)
     return found
 
 
@@ -1031,22 +1055,22 @@ class _Patched:
         logging.getLogger("vru_basic_service").setLevel(self.lvl)
 
 
-def run_corpus(ctx, var):
+def run_corpus(ctx, var, batch):
     n = 0
     for name, case in corpus("C18"):
         n += 1
-        bad = replay_case(ctx, case, var, quiet=True)
+        bad = replay_case(ctx, case, var, quiet=True, batch=batch)
         for kind, detail in bad:
             fid = classify(kind, detail) or case.get("finding") or REGRESSION_OF.get(kind)
             ctx.violation(f"corpus {name}: {kind}: {detail}", dict(case, expect=kind), fid)
     ctx.cover("corpus_cases", n)
 
 
-def replay_case(ctx, case, var=None, quiet=False):
+def replay_case(ctx, case, var=None, quiet=False, batch=None):
     """returns list of (kind, detail) violations of the property on this case (real code, oracle only)"""
     kind = case.get("kind")
     if kind == "seq":
-        found = run_seq(ctx, var or detect_variant(), case, compare=var is not None)
+        found = run_seq(ctx, var or detect_variant(), case, batch=batch)
         return [b for _, b in found]
     if kind == "encode":
         err = encode_witness()
@@ -1071,7 +1095,8 @@ def run(ctx):
         err = encode_witness()
         if err:
             ctx.violation(f"cluster-vam-not-encodable: leader's cluster VAM through the real coder: {err}", {"kind": "encode"}, "C18-F1")
-        run_corpus(ctx, var)
+        batch = Batch()
+        run_corpus(ctx, var, batch)
         # (i) exhaustive
         alpha = alphabet(ctx.thorough)
         jobs = [{"root": r, "depth": ctx.scale(2, 3), "cap": 10 ** 9, "exact": True} for r in ROOTS] + \
@@ -1088,7 +1113,7 @@ def run(ctx):
             clock = "float" if i % 3 == 2 else "fraction"
             case = random_case(ctx, 400, clock)
             rec = []
-            found = run_seq(ctx, var, case, record=rec)
+            found = run_seq(ctx, var, case, batch=batch, record=rec)
             for (_, op, o) in rec:
                 ctx.cover(f"rnd_{op[0]}_{o['st']}")
             ctx.cover(f"random_sequences_{clock}")
@@ -1097,6 +1122,7 @@ def run(ctx):
                 report(ctx, case, found)
             if i == 0:
                 ctx.sample("random", {"clock": clock, "ops": case["ops"][:8]})
+        batch.flush(ctx, var)
         # (ii) closed loops
         for case in loop_cases(ctx, ctx.scale(12, 240)):
             found = run_loop(ctx, case)
@@ -1138,7 +1164,7 @@ def search(ctx):
         var = detect_variant()
         for i in range(ctx.scale(72, 900)):
             case = random_case(ctx, 400, "float" if i % 3 == 2 else "fraction")
-            found = run_seq(ctx, var, case, compare=False)
+            found = run_seq(ctx, var, case)
             if found:
                 report(ctx, case, found)
         for case in loop_cases(ctx, ctx.scale(18, 120)):
